@@ -457,8 +457,19 @@ func (c18) Generate(r *rand.Rand, tier string) (sim.Config, any) {
 			case x < 16:
 				if tree != nil {
 					full, _ := json.Marshal(tree)
-					rawOverride = full[:r.IntN(len(full)+1)]
-					req.Desc = "truncated body"
+					if r.IntN(2) == 0 { // a MessagePack body cut anywhere, often on an element boundary
+						if mp, err := msgpack.Marshal(tree); err == nil {
+							full = mp
+							req.CT = "application/msgpack"
+						}
+					}
+					cut := r.IntN(len(full) + 1)
+					rawOverride = full[:cut]
+					req.Desc = fmt.Sprintf("body truncated to %d of %d bytes", cut, len(full))
+					if cut < len(full) {
+						// a strict prefix of an encoded object / map is never a complete document
+						req.Label = "must4xx"
+					}
 				}
 			case x < 17:
 				if tree != nil {
